@@ -107,6 +107,7 @@ Section GateLines.
   Variable f : file.
   Hypothesis Hbs : 0 < bs.
 
+  Local Notation lr_inv0 := (lr_inv0 bs f).
   Local Notation lr_inv := (lr_inv bs f).
   Local Notation sline_ok := (sline_ok bs f).
 
@@ -116,32 +117,32 @@ Section GateLines.
   Definition pred_stored (l : lr_state) (fo : N) : Prop :=
     fo = 0 \/ alookup (fo - 1) (l_lines l) <> None \/ lr_get_linep l (fo - 1) <> None.
 
-  (* every line the LRU cache holds is also in `lines` (true as long as nothing was dropped) *)
+  (* every offset under which the LRU cache holds a line is the begin of a stored line (the requests of
+     the sequential pattern are at line begins; drop_line pops the key whose line it removes) *)
   Definition lru_stored (l : lr_state) : Prop :=
-    forall k n s, alookup k (l_lru l) = Some (LF n s) ->
-      exists b, line_fo_begin bs (sl_parts s) = Some b /\ stored_at l b.
+    forall k n s, alookup k (l_lru l) = Some (LF n s) -> stored_at l k.
 
-  Lemma lru_stored_init : lru_stored lr_init.
+  Lemma lru_stored_init stream : lru_stored (lr_init_k stream).
   Proof. intros k n s H. discriminate. Qed.
 
   Lemma lru_stored_same l l' : l_lines l' = l_lines l ->
     (forall k r, alookup k (l_lru l') = Some r -> alookup k (l_lru l) = Some r) -> lru_stored l -> lru_stored l'.
   Proof. intros A B S k n s X. unfold stored_at. rewrite A. apply (S k n s). apply B. exact X. Qed.
 
-  Lemma lru_stored_put l fo n s b : lru_stored l -> line_fo_begin bs (sl_parts s) = Some b -> stored_at l b ->
+  Lemma lru_stored_put l fo n s : lru_stored l -> stored_at l fo ->
     lru_stored (lr_put l fo (LF n s)) /\ l_lines (lr_put l fo (LF n s)) = l_lines l /\
     l_foend (lr_put l fo (LF n s)) = l_foend l.
   Proof.
-    intros S B ST. unfold lr_put. destruct (l_on l); [|auto]. split; [|split; reflexivity].
+    intros S ST. unfold lr_put. destruct (l_on l); [|auto]. split; [|split; reflexivity].
     intros k n' s' X. change (alookup k (lru_put LINE_LRU_CAP fo (LF n s) (l_lru l)) = Some (LF n' s')) in X.
     apply lru_put_lookup in X as [[-> E]|[_ X]].
-    - inversion E; subst. exists b. auto.
+    - exact ST.
     - exact (S _ _ _ X).
   Qed.
 
   Lemma check_lru_seq l fo l' o : lru_stored l -> lr_check_lru l fo = (l', o) ->
     lru_stored l' /\ l_lines l' = l_lines l /\ l_foend l' = l_foend l /\
-    match o with Some (LF n s) => exists b, line_fo_begin bs (sl_parts s) = Some b /\ stored_at l b | _ => True end.
+    match o with Some (LF n s) => stored_at l fo | _ => True end.
   Proof.
     intros S. unfold lr_check_lru. destruct (l_on l).
     - destruct (lru_get fo (l_lru l)) as [[r|] c] eqn:G; intro H; injection H as <- <-.
@@ -152,39 +153,42 @@ Section GateLines.
     - intro H; injection H as <- <-. auto.
   Qed.
 
-  Lemma insert_line_seq l ps b e : lr_inv l -> lru_stored l -> line_ok bs f ps b e ->
-    exists l', lr_insert_line bs l ps = Some (l', (l_nid l, ps)) /\ lr_inv l' /\ lru_stored l' /\
-      (forall x, stored_at l x -> stored_at l' x) /\ stored_at l' b /\ l_on l' = l_on l.
+  Lemma insert_line_seq l ps b e : lr_inv0 l -> lru_stored l -> line_ok bs f ps b e ->
+    exists l', lr_insert_line bs l ps = Some (l', (l_nid l, ps)) /\ lr_inv0 l' /\ lru_stored l' /\
+      (forall x, stored_at l x -> stored_at l' x) /\ stored_at l' b /\ l_on l' = l_on l /\
+      (forall x, stored_at l' x -> stored_at l x \/ x = b) /\ l_blk l' = l_blk l.
   Proof.
-    intros I S OK. destruct (lr_insert_line_ok bs f l ps b e I OK) as (l' & E & I' & ON & LR).
+    intros I S OK. destruct (lr_insert_line_ok0 bs f l ps b e I OK) as (l' & E & I' & ON & LR).
     exists l'. split; [exact E|]. split; [exact I'|].
     unfold lr_insert_line in E. destruct (line_ok_facts bs f _ _ _ OK) as (LB & LE & _). rewrite LB, LE in E.
     injection E as <-. cbn [l_lines l_lru] in *.
     assert (MONO : forall x, stored_at l x -> stored_at (mkLR (ainsert b (l_nid l, ps) (l_lines l)) (ainsert e b (l_foend l)) (l_lru l) (l_on l) (l_nid l + 1) (lc_inserted (lenN (ainsert b (l_nid l, ps) (l_lines l))) (l_cnt l)) (l_blk l) (l_ext l)) x).
     { intros x X. unfold stored_at in *. cbn. rewrite alookup_ainsert. destruct (x =? b); [discriminate|exact X]. }
-    split; [|split; [exact MONO|split; [|reflexivity]]].
-    - intros k n s X. cbn in X. destruct (S _ _ _ X) as (b' & B' & ST). exists b'. split; [exact B'|apply MONO; exact ST].
+    split; [|split; [exact MONO|split; [|split; [reflexivity|split; [|reflexivity]]]]].
+    - intros k n s X. cbn in X. apply MONO. exact (S _ _ _ X).
     - unfold stored_at. cbn. rewrite alookup_ainsert, N.eqb_refl. discriminate.
+    - intros x. unfold stored_at. cbn. rewrite alookup_ainsert. destruct (N.eqb_spec x b); [right; assumption|left; assumption].
   Qed.
 
-  Lemma store_found_seq l fo n ps p l' r p' b e : lr_inv l -> lru_stored l -> line_ok bs f ps b e ->
+  Lemma store_found_seq l fo n ps p l' r p' e : lr_inv0 l -> lru_stored l -> line_ok bs f ps fo e ->
     lr_store_found bs l fo n ps p = (l', r, p') ->
-    lru_stored l' /\ (forall x, stored_at l x -> stored_at l' x) /\ stored_at l' b /\ exists s, r = Found (n, s).
+    lru_stored l' /\ (forall x, stored_at l x -> stored_at l' x) /\ stored_at l' fo /\ (exists s, r = Found (n, s)) /\
+    (forall x, stored_at l' x -> stored_at l x \/ x = fo) /\ l_blk l' = l_blk l.
   Proof.
     intros I S OK. unfold lr_store_found.
-    destruct (insert_line_seq l ps b e I S OK) as (l1 & E & I1 & S1 & MONO & ST & _). rewrite E.
+    destruct (insert_line_seq l ps fo e I S OK) as (l1 & E & I1 & S1 & MONO & ST & _ & FR & BK). rewrite E.
     intro H; injection H as <- <- <-.
-    destruct (line_ok_facts bs f _ _ _ OK) as (LB & _).
-    destruct (lru_stored_put l1 fo n (l_nid l, ps) b S1 LB ST) as (S2 & L2 & _).
-    split; [exact S2|]. unfold stored_at in *. rewrite L2. split; [exact MONO|]. split; [exact ST|eauto].
+    destruct (lru_stored_put l1 fo n (l_nid l, ps) S1 ST) as (S2 & L2 & _).
+    split; [exact S2|]. unfold stored_at in *. rewrite L2. split; [exact MONO|]. split; [exact ST|]. split; [eauto|].
+    split; [exact FR|]. rewrite blk_put. exact BK.
   Qed.
 
-  Lemma answer_seq l fo s p l' r p' b : lru_stored l -> line_fo_begin bs (sl_parts s) = Some b -> stored_at l b ->
+  Lemma answer_seq l fo s p l' r p' : lru_stored l -> stored_at l fo ->
     lr_answer l fo bs s p = (l', r, p') ->
     lru_stored l' /\ l_lines l' = l_lines l /\ l_foend l' = l_foend l.
   Proof.
-    intros S B ST. unfold lr_answer. destruct (line_fo_end bs (sl_parts s)) as [e|].
-    - intro H; injection H as <- <- <-. apply (lru_stored_put l fo (e + 1) s b); assumption.
+    intros S ST. unfold lr_answer. destruct (line_fo_end bs (sl_parts s)) as [e|].
+    - intro H; injection H as <- <- <-. apply (lru_stored_put l fo (e + 1) s); assumption.
     - intro H; injection H as <- <- <-. auto.
   Qed.
 
@@ -192,18 +196,108 @@ Section GateLines.
   Proof. apply lru_stored_same; auto. Qed.
 
   (* a stored line makes its successor's predecessor known *)
-  Lemma stored_pred l b e : lr_inv l -> stored_at l b -> span f b e -> pred_stored l (e + 1).
+  Lemma stored_pred l b e : lr_inv0 l -> stored_at l b -> span f b e -> pred_stored l (e + 1).
   Proof.
     intros I ST SP. unfold stored_at in ST. destruct (alookup b (l_lines l)) as [s|] eqn:LK; [|congruence].
     right. replace (e + 1 - 1) with e by lia.
-    destruct (get_linep_complete bs f Hbs l e b e s I LK SP ltac:(destruct SP; lia) ltac:(lia)); auto.
+    destruct (get_linep_complete0 bs f Hbs l e b e s I LK SP ltac:(destruct SP; lia) ltac:(lia)); auto.
+  Qed.
+
+  (* ---------------------------------------------------------------- what a call does to the BlockReader
+     and to the set of stored lines (whatever the answer) *)
+
+  (* reading block bo succeeds from the block state of l (whatever the reference counts) *)
+  Definition reads_ok (l : lr_state) (bo : N) : Prop :=
+    forall l2 ip, l_blk l2 = l_blk l -> snd (lr_read bs f l2 ip bo) = BFound.
+
+  Lemma store_found_frame st fo n ps p st' r p' : lr_store_found bs st fo n ps p = (st', r, p') ->
+    forall y, stored_at st' y -> stored_at st y \/ line_fo_begin bs ps = Some y.
+  Proof.
+    unfold lr_store_found, lr_insert_line.
+    destruct (line_fo_begin bs ps) as [b|]; [destruct (line_fo_end bs ps) as [e|]|]; intro H; injection H as <- _ _; try (intros y Y; left; exact Y).
+    intros y. unfold stored_at. unfold lr_put. destruct (l_on _); cbn; rewrite alookup_ainsert;
+      (destruct (N.eqb_spec y b); [intros _; right; congruence|intro Y; left; exact Y]).
+  Qed.
+
+  Lemma mid_begin fo e : line_fo_begin bs [(block_offset_at_file_offset fo bs, block_index_at_file_offset fo bs, e)] = Some fo.
+  Proof.
+    unfold line_fo_begin, part_fo, part_bo, part_beg, file_offset_at_block_offset_index, file_offset_at_block_offset. cbn [fst snd].
+    destruct (div_mod_bs fo bs Hbs) as [EQ _]. unfold block_offset_at_file_offset. f_equal. lia.
+  Qed.
+
+  Lemma c_flib_core_frame st fo st' x p : c_flib_core bs f st fo = (st', x, p) ->
+    forall y, stored_at st' y -> stored_at st y \/ y = fo.
+  Proof.
+    unfold c_flib_core. cbv zeta.
+    repeat match goal with
+    | |- context [lr_store_found ?a ?b ?c ?d ?e ?g] => destruct (lr_store_found a b c d e g) as [[? ?] ?] eqn:?SF
+    | |- context [lr_fresh_line ?a ?b] => destruct (lr_fresh_line a b) as [? ?] eqn:?FL
+    | |- context [if ?X then _ else _] => destruct X eqn:?
+    | |- context [match ?X with _ => _ end] => destruct X eqn:?
+    end;
+    intro H; injection H as <- _ _;
+    try (match goal with FL : lr_fresh_line _ _ = _ |- _ => unfold lr_fresh_line in FL; injection FL as <- _ end);
+    try (intros y Y; left; exact Y);
+    match goal with SF : lr_store_found _ _ _ _ _ _ = _ |- _ =>
+      intros y Y; destruct (store_found_frame _ _ _ _ _ _ _ _ SF y Y) as [Q|Q]; [left; exact Q|right] end.
+    all: try (match goal with E : (?z =? 0) = true |- _ => apply N.eqb_eq in E; subst z end).
+    all: rewrite mid_begin in Q; congruence.
+  Qed.
+
+  Lemma lb_blk_frame l fo l' x p : c_find_line_in_block bs f l fo = (l', x, p) ->
+    (forall y, stored_at l' y -> stored_at l y \/ y = fo) /\
+    (l_blk l' = l_blk l \/
+     (~ stored_at l fo /\ exists l2 ip, l_blk l2 = l_blk l /\
+        l_blk l' = l_blk (fst (lr_read bs f l2 ip (block_offset_at_file_offset fo bs))))).
+  Proof.
+    unfold c_find_line_in_block.
+    destruct (lr_check_lru l fo) as [l1 [y|]] eqn:CL.
+    - pose proof (blk_check_lru _ _ _ _ CL) as B1. intro H; injection H as <- _ _.
+      split; [|left; exact B1]. intros z Z. left. revert CL Z. unfold lr_check_lru, stored_at.
+      destruct (l_on l); [|discriminate].
+      destruct (lru_get fo (l_lru l)) as [[w|] c]; [|discriminate]. intro Q; injection Q as <- _. auto.
+    - pose proof (blk_check_lru _ _ _ _ CL) as B1.
+      assert (L1 : l_lines l1 = l_lines l).
+      { revert CL. unfold lr_check_lru. destruct (l_on l); [|intro Q; injection Q as <-; reflexivity].
+        destruct (lru_get fo (l_lru l)) as [[w|] c]; [discriminate|]. intro Q; injection Q as <-. reflexivity. }
+      destruct ((lenN f =? 0) || (lenN f <? fo) || (fo =? lenN f)).
+      { intro H; injection H as <- _ _. split; [|left; exact B1]. intros z Z. left. unfold stored_at in *. rewrite <- L1. exact Z. }
+      unfold lr_check_store.
+      destruct (alookup fo (l_lines l1)) as [s|] eqn:LK.
+      { destruct (lr_answer _ _ _ _ _) as [[l2 r2] p2] eqn:AN. intro H; injection H as <- _ _.
+        split; [|left; rewrite (blk_answer _ _ _ _ _ _ _ _ AN); exact B1].
+        intros z Z. left. revert AN Z. unfold lr_answer, stored_at. destruct (line_fo_end bs (sl_parts s));
+          intro Q; injection Q as <- _ _; unfold lr_put; cbn; destruct (l_on l1); cbn; rewrite L1; auto. }
+      destruct (lr_get_linep (lr_cnt lc_miss_up l1) fo) as [s|] eqn:GL.
+      { destruct (lr_answer _ _ _ _ _) as [[l2 r2] p2] eqn:AN. intro H; injection H as <- _ _.
+        split; [|left; rewrite (blk_answer _ _ _ _ _ _ _ _ AN); exact B1].
+        intros z Z. left. revert AN Z. unfold lr_answer, stored_at. destruct (line_fo_end bs (sl_parts s));
+          intro Q; injection Q as <- _ _; unfold lr_put; cbn; destruct (l_on l1); cbn; rewrite L1; auto. }
+      assert (NS : ~ stored_at l fo) by (unfold stored_at; rewrite <- L1, LK; intro Q; apply Q; reflexivity).
+      set (l2 := lr_cnt lc_miss_up l1).
+      destruct (lr_read bs f l2 (fun _ => false) (block_offset_at_file_offset fo bs)) as [l3 rr] eqn:RD.
+      destruct (lr_read_ok bs f _ _ _ _ _ RD) as ((SA & _) & _).
+      assert (BK : exists l2' ip, l_blk l2' = l_blk l /\ l_blk l3 = l_blk (fst (lr_read bs f l2' ip (block_offset_at_file_offset fo bs)))).
+      { exists l2, (fun _ => false). split; [exact B1|]. rewrite RD. reflexivity. }
+      destruct rr.
+      + intro H. split.
+        * intros z Z. destruct (c_flib_core_frame _ _ _ _ _ H z Z) as [Q|Q]; [left|right; exact Q].
+          unfold stored_at in *. rewrite SA in Q. cbn in Q. rewrite L1 in Q. exact Q.
+        * right. split; [exact NS|]. rewrite (c_flib_core_blk bs f _ _ _ _ _ H). exact BK.
+      + intro H; injection H as <- _ _. split; [|right; split; [exact NS|exact BK]].
+        intros z Z. left. unfold stored_at in *. rewrite SA in Z. cbn in Z. rewrite L1 in Z. exact Z.
+      + intro H; injection H as <- _ _. split; [|right; split; [exact NS|exact BK]].
+        intros z Z. left. unfold stored_at in *. rewrite SA in Z. cbn in Z. rewrite L1 in Z. exact Z.
+      + intro H; injection H as <- _ _. split; [|right; split; [exact NS|exact BK]].
+        intros z Z. left. unfold stored_at in *. rewrite SA in Z. cbn in Z. rewrite L1 in Z. exact Z.
   Qed.
 
   (* find_line_in_block at the begin of a line whose predecessor is known: the line is found AND
      stored, or it does not end inside the block (Done; the partial line is its first byte) *)
-  Theorem lb_seq l fo l' r part p : lr_inv l -> lru_stored l -> fo < lenN f -> line_beg f fo = fo ->
-    pred_stored l fo -> c_find_line_in_block bs f l fo = (l', (r, part), p) ->
-    lr_inv l' /\ lru_stored l' /\ (forall x, stored_at l x -> stored_at l' x) /\
+  Theorem lb_seq_main l fo l' r part p : lr_inv0 l -> lru_stored l -> fo < lenN f -> line_beg f fo = fo ->
+    pred_stored l fo -> (~ stored_at l fo -> reads_ok l (block_offset_at_file_offset fo bs)) ->
+    c_find_line_in_block bs f l fo = (l', (r, part), p) ->
+    lr_inv0 l' /\ lru_stored l' /\ (forall x, stored_at l x -> stored_at l' x) /\
     ((exists s, r = Found (line_end f fo + 1, s) /\ sline_ok s fo (line_end f fo) /\ stored_at l' fo) \/
      (r = Done /\ fo + 1 < lenN f /\
       match part with
@@ -211,24 +305,24 @@ Section GateLines.
       | Some s => bytes_of bs f (sl_parts s) = slice f fo (fo + 1) /\ line_fo_begin bs (sl_parts s) = Some fo
       end)).
   Proof.
-    intros I SS L LB PS H.
-    destruct (c_find_line_in_block_ok bs f Hbs _ _ _ _ _ _ I H) as [I' R].
+    intros I SS L LB PS RD0 H.
+    destruct (c_find_line_in_block_ok0 bs f Hbs _ _ _ _ _ _ I H) as (I' & R & _).
     split; [exact I'|].
     assert (SHAPE : forall n s, r = Found (n, s) -> n = line_end f fo + 1 /\ sline_ok s fo (line_end f fo)).
-    { intros n s ->. cbn in R. unfold lres_ok in R. destruct (N.ltb_spec fo (lenN f)); [|lia].
+    { intros n s ->. destruct R as [R|[[R _]|[R _]]]; [|discriminate R|discriminate R].
+      cbn in R. unfold lres_ok in R. destruct (N.ltb_spec fo (lenN f)); [|lia].
       destruct R as (s' & E & OK). inversion E; subst. rewrite LB in OK. auto. }
     revert H. unfold c_find_line_in_block.
     destruct (lr_check_lru l fo) as [l1 [x|]] eqn:CL.
     { (* LRU hit *)
       destruct (check_lru_seq _ _ _ _ SS CL) as (S1 & L1 & _ & X).
-      destruct (lr_check_lru_ok bs f _ _ _ _ I CL) as [_ EO].
+      destruct (lr_check_lru_ok0 bs f _ _ _ _ I CL) as [_ EO].
       intro H; injection H as <- <- <- <-. split; [exact S1|]. split; [unfold stored_at; rewrite L1; auto|].
       destruct x as [n s|]; [|destruct EO]. left. destruct (SHAPE n s eq_refl) as [-> OK].
       exists s. split; [reflexivity|]. split; [exact OK|].
-      destruct X as (b & B & ST). destruct (line_ok_facts bs f _ _ _ OK) as (B' & _). unfold sl_parts in *.
-      rewrite B' in B. inversion B; subst b. unfold stored_at in *. rewrite L1. exact ST. }
+      unfold stored_at in *. rewrite L1. exact X. }
     destruct (check_lru_seq _ _ _ _ SS CL) as (S1 & L1 & E1 & _).
-    destruct (lr_check_lru_ok bs f _ _ _ _ I CL) as [I1 _].
+    destruct (lr_check_lru_ok0 bs f _ _ _ _ I CL) as [I1 _]. pose proof (blk_check_lru _ _ _ _ CL) as BK1.
     destruct (N.eqb_spec (lenN f) 0) as [Z|Z]; [lia|]. cbn [orb].
     destruct (N.ltb_spec (lenN f) fo) as [Z2|Z2]; [lia|]. cbn [orb].
     destruct (N.eqb_spec fo (lenN f)) as [Z3|Z3]; [lia|].
@@ -237,8 +331,9 @@ Section GateLines.
     destruct (alookup fo (l_lines l1)) as [s|] eqn:LK.
     { (* lines hit *)
       destruct (lr_answer _ _ _ _ _) as [[l2 r2] p2] eqn:AN.
-      destruct (li_lines bs f _ I1 _ _ LK) as (e & OK). destruct (line_ok_facts bs f _ _ _ OK) as (B & _).
-      destruct (answer_seq _ _ _ _ _ _ _ fo (cnt_seq _ _ S1) B ltac:(unfold stored_at; cbn; congruence) AN) as (S2 & L2 & _).
+      destruct (li0_lines bs f _ I1 _ _ LK) as (e & OK). destruct (line_ok_facts bs f _ _ _ OK) as (B & _).
+      assert (STq : stored_at (lr_cnt lc_hits_up l1) fo) by (unfold stored_at; cbn; congruence).
+      destruct (answer_seq _ _ _ _ _ _ _ (cnt_seq _ _ S1) STq AN) as (S2 & L2 & _).
       cbn in L2. intro H; injection H as <- <- <- <-.
       split; [exact S2|]. split; [unfold stored_at in *; rewrite L2; auto|].
       unfold lr_answer in AN. destruct (line_ok_facts bs f _ _ _ OK) as (_ & EN & _). unfold sl_parts in *. rewrite EN in AN.
@@ -248,24 +343,26 @@ Section GateLines.
     destruct (lr_get_linep (lr_cnt lc_miss_up l1) fo) as [s|] eqn:GL.
     { (* by-end hit *)
       destruct (lr_answer _ _ _ _ _) as [[l2 r2] p2] eqn:AN.
-      destruct (get_linep_sound bs f _ _ _ (lr_inv_cnt bs f _ _ I1) GL) as (b & e & OK & B1 & B2 & LKB & _).
+      destruct (get_linep_sound0 bs f _ _ _ (lr_inv0_cnt bs f _ _ I1) GL) as (b & e & OK & B1 & B2 & LKB & _).
       destruct (line_ok_facts bs f _ _ _ OK) as (B & EN & _).
       assert (b = fo).
       { destruct OK as [SP _]. destruct (span_in f b e fo SP B1 B2) as [X _]. congruence. }
       subst b.
-      destruct (answer_seq _ _ _ _ _ _ _ fo (cnt_seq _ _ S1) B ltac:(unfold stored_at; cbn in *; congruence) AN) as (S2 & L2 & _).
+      assert (STq : stored_at (lr_cnt lc_miss_up l1) fo) by (unfold stored_at; cbn in *; congruence).
+      destruct (answer_seq _ _ _ _ _ _ _ (cnt_seq _ _ S1) STq AN) as (S2 & L2 & _).
       cbn in L2. intro H; injection H as <- <- <- <-.
       split; [exact S2|]. split; [unfold stored_at in *; rewrite L2; auto|].
       unfold lr_answer in AN. unfold sl_parts in *. rewrite EN in AN. injection AN as <- <- <-.
       assert (ST2 : stored_at (lr_put (lr_cnt lc_miss_up l1) fo (LF (e + 1) s)) fo) by (unfold stored_at; rewrite L2; cbn in LKB; congruence).
       left. destruct (SHAPE _ _ eq_refl) as [EQ' OK']. exists s. rewrite <- EQ'. split; [reflexivity|]. split; [exact OK'|exact ST2]. }
-    (* miss: read the block of the offset (always there: lr_inv), then search inside it *)
+    (* miss: read the block of the offset (hypothesis: it can be read), then search inside it *)
     set (l2 := lr_cnt lc_miss_up l1) in *.
-    assert (I2 : lr_inv l2) by (apply lr_inv_cnt; exact I1).
+    assert (I2 : lr_inv0 l2) by (apply lr_inv0_cnt; exact I1).
+    assert (NS : ~ stored_at l fo) by (unfold stored_at; rewrite <- L1, LK; intro Q; apply Q; reflexivity).
     destruct (lr_read bs f l2 (fun _ => false) (block_offset_at_file_offset fo bs)) as [l3 rr] eqn:RD.
-    destruct (lr_read_ok bs f _ _ _ _ _ RD) as (SM & TR).
-    destruct (TR (proj2 I2) (blockoffset_last_ge (lenN f) bs fo Hbs L) ltac:(lia)) as (-> & T3).
-    assert (I3 : lr_inv l3) by (split; [eapply same_maps_inv; [exact SM|exact (proj1 I2)]|exact T3]).
+    destruct (lr_read_ok bs f _ _ _ _ _ RD) as (SM & _).
+    pose proof (RD0 NS l2 (fun _ => false) BK1) as RR. rewrite RD in RR. cbn [snd] in RR. subst rr.
+    assert (I3 : lr_inv0 l3) by (eapply same_maps_inv; [exact SM|exact I2]).
     destruct SM as (SA & SB & SC & _).
     assert (S3 : lru_stored l3).
     { apply (lru_stored_same l2); [exact SA|intros k r0 X; rewrite SC in X; exact X|apply cnt_seq; exact S1]. }
@@ -304,7 +401,7 @@ Section GateLines.
         lia. }
       destruct (N.eqb_spec fo 0) as [Z0|Z0].
       - destruct (lr_fresh_line l3 _) as [l5 s5] eqn:FL.
-        destruct (lr_fresh_line_inv bs f _ _ _ _ I3 FL) as [_ ->].
+        destruct (lr_fresh_line_inv0 bs f _ _ _ _ I3 FL) as [_ ->].
         unfold lr_fresh_line in FL. injection FL as <-.
         intro H; injection H as <- <- <- <-.
         split; [apply (lru_stored_same l3); auto|]. split; [exact MONO3|]. right.
@@ -330,7 +427,7 @@ Section GateLines.
         { apply rfind_nl_last. rewrite byte_at_block by lia. replace (bo * bs + bi1) with (fo - 1) by lia. exact NLB. }
         rewrite RF.
         match goal with |- context [lr_fresh_line ?st ?ps] => destruct (lr_fresh_line st ps) as [l5 s5] eqn:FL end.
-        destruct (lr_fresh_line_inv bs f _ _ _ _ (lr_inv_cnt bs f lc_miss_up _ I3) FL) as [_ ->].
+        destruct (lr_fresh_line_inv0 bs f _ _ _ _ (lr_inv0_cnt bs f lc_miss_up _ I3) FL) as [_ ->].
         unfold lr_fresh_line in FL. injection FL as <-.
         intro H; injection H as <- <- <- <-.
         split; [apply (lru_stored_same l3); auto|]. split; [exact MONO3|]. right.
@@ -352,7 +449,7 @@ Section GateLines.
         rewrite ?Q1, ?Q2; rewrite BZ in OK; rewrite ?BZ;
         destruct (lr_store_found _ _ _ _ _ _) as [[l5 r5] p5] eqn:SF;
         intro H; injection H as <- <- <- <-;
-        destruct (store_found_seq _ _ _ _ _ _ _ _ _ _ I3 S3 OK SF) as (S5 & M5 & ST5 & s5 & ->);
+        destruct (store_found_seq _ _ _ _ _ _ _ _ _ I3 S3 OK SF) as (S5 & M5 & ST5 & (s5 & ->) & _);
         split; [exact S5|]; split; [intros x X; apply M5; apply MONO3; exact X|]; left;
         destruct (SHAPE _ _ eq_refl) as [_ OK5]; exists s5; rewrite LE; auto
       | ].
@@ -360,37 +457,37 @@ Section GateLines.
     all: try (destruct (alookup (fo - 1) (l_lines l3)) as [sp|] eqn:A1; [|congruence];
               destruct (lr_store_found _ _ _ _ _ _) as [[l5 r5] p5] eqn:SF;
               intro H; injection H as <- <- <- <-;
-              destruct (store_found_seq _ _ _ _ _ _ _ _ _ _ (lr_inv_cnt bs f lc_hits_up _ I3) (cnt_seq lc_hits_up _ S3) OK SF)
-                as (S5 & M5 & ST5 & s5 & ->);
+              destruct (store_found_seq _ _ _ _ _ _ _ _ _ (lr_inv0_cnt bs f lc_hits_up _ I3) (cnt_seq lc_hits_up _ S3) OK SF)
+                as (S5 & M5 & ST5 & (s5 & ->) & _);
               split; [exact S5|]; split; [intros x X; apply M5; apply MONO3; exact X|]; left;
               destruct (SHAPE _ _ eq_refl) as [_ OK5]; exists s5; rewrite LE; auto).
     all: destruct (alookup (fo - 1) (l_lines l3)) as [sp|] eqn:A1.
     all: try (destruct (lr_store_found _ _ _ _ _ _) as [[l5 r5] p5] eqn:SF;
               intro H; injection H as <- <- <- <-;
-              destruct (store_found_seq _ _ _ _ _ _ _ _ _ _ (lr_inv_cnt bs f lc_hits_up _ I3) (cnt_seq lc_hits_up _ S3) OK SF)
-                as (S5 & M5 & ST5 & s5 & ->);
+              destruct (store_found_seq _ _ _ _ _ _ _ _ _ (lr_inv0_cnt bs f lc_hits_up _ I3) (cnt_seq lc_hits_up _ S3) OK SF)
+                as (S5 & M5 & ST5 & (s5 & ->) & _);
               split; [exact S5|]; split; [intros x X; apply M5; apply MONO3; exact X|]; left;
               destruct (SHAPE _ _ eq_refl) as [_ OK5]; exists s5; rewrite LE; auto).
     all: destruct (lr_get_linep (lr_cnt lc_miss_up l3) (fo - 1)) as [sq|] eqn:A2;
       [|exfalso; apply P1; unfold lr_get_linep in *; cbn in A2; exact A2].
     all: destruct (lr_store_found _ _ _ _ _ _) as [[l5 r5] p5] eqn:SF;
          intro H; injection H as <- <- <- <-;
-         destruct (store_found_seq _ _ _ _ _ _ _ _ _ _ (lr_inv_cnt bs f lc_miss_up _ I3) (cnt_seq lc_miss_up _ S3) OK SF)
-           as (S5 & M5 & ST5 & s5 & ->);
+         destruct (store_found_seq _ _ _ _ _ _ _ _ _ (lr_inv0_cnt bs f lc_miss_up _ I3) (cnt_seq lc_miss_up _ S3) OK SF)
+           as (S5 & M5 & ST5 & (s5 & ->) & _);
          split; [exact S5|]; split; [intros x X; apply M5; apply MONO3; exact X|]; left;
          destruct (SHAPE _ _ eq_refl) as [_ OK5]; exists s5; rewrite LE; auto.
   Qed.
   (* at the end of the file: Done, nothing changes but counters and the order of the LRU list *)
-  Lemma lb_eof l l' r part p : lr_inv l -> lru_stored l ->
+  Lemma lb_eof0 l l' r part p : lr_inv0 l -> lru_stored l ->
     c_find_line_in_block bs f l (lenN f) = (l', (r, part), p) ->
-    r = Done /\ part = None /\ lr_inv l' /\ lru_stored l' /\ (forall x, stored_at l x -> stored_at l' x).
+    r = Done /\ part = None /\ lr_inv0 l' /\ lru_stored l' /\ (forall x, stored_at l x -> stored_at l' x).
   Proof.
     intros I S C.
-    destruct (c_find_line_in_block_ok bs f Hbs _ _ _ _ _ _ I C) as [I' R].
+    destruct (c_find_line_in_block_ok0 bs f Hbs _ _ _ _ _ _ I C) as (I' & R & _).
     assert (r = Done /\ part = None /\ l_lines l' = l_lines l /\ l_lru l' = l_lru l) as (-> & -> & LL & LU).
     { revert C. unfold c_find_line_in_block.
       destruct (lr_check_lru l (lenN f)) as [l1 [x|]] eqn:CL.
-      - destruct (lr_check_lru_ok bs f _ _ _ _ I CL) as [_ EO]. pose proof (entry_lt bs f Hbs _ _ EO) as ELT. lia.
+      - destruct (lr_check_lru_ok0 bs f _ _ _ _ I CL) as [_ EO]. pose proof (entry_lt bs f Hbs _ _ EO) as ELT. lia.
       - destruct (N.eqb_spec (lenN f) 0); cbn [orb];
           [|destruct (N.ltb_spec (lenN f) (lenN f)); cbn [orb]; [|destruct (N.eqb_spec (lenN f) (lenN f)); [|lia]]];
           intro HH; injection HH as <- <- <- <-; (split; [reflexivity|split; [reflexivity|]]);
@@ -400,6 +497,73 @@ Section GateLines.
     split; [reflexivity|]. split; [reflexivity|]. split; [exact I'|]. split.
     - intros k0 n0 s0 X. unfold stored_at. rewrite LL. rewrite LU in X. exact (S _ _ _ X).
     - unfold stored_at. rewrite LL. auto.
+  Qed.
+
+  (* the same with the effect on the BlockReader and on the set of stored lines *)
+  Theorem lb_seq0 l fo l' r part p : lr_inv0 l -> lru_stored l -> fo < lenN f -> line_beg f fo = fo ->
+    pred_stored l fo -> (~ stored_at l fo -> reads_ok l (block_offset_at_file_offset fo bs)) ->
+    c_find_line_in_block bs f l fo = (l', (r, part), p) ->
+    lr_inv0 l' /\ lru_stored l' /\ (forall x, stored_at l x -> stored_at l' x) /\
+    (forall y, stored_at l' y -> stored_at l y \/ y = fo) /\
+    (l_blk l' = l_blk l \/
+     (~ stored_at l fo /\ exists l2 ip, l_blk l2 = l_blk l /\
+        l_blk l' = l_blk (fst (lr_read bs f l2 ip (block_offset_at_file_offset fo bs))))) /\
+    ((exists s, r = Found (line_end f fo + 1, s) /\ sline_ok s fo (line_end f fo) /\ stored_at l' fo) \/
+     (r = Done /\ fo + 1 < lenN f /\
+      match part with
+      | None => True
+      | Some s => bytes_of bs f (sl_parts s) = slice f fo (fo + 1) /\ line_fo_begin bs (sl_parts s) = Some fo
+      end)).
+  Proof.
+    intros I S L LB PS RD0 H.
+    destruct (lb_seq_main _ _ _ _ _ _ I S L LB PS RD0 H) as (A & B & C & D).
+    destruct (lb_blk_frame _ _ _ _ _ H) as (E & F). auto 10.
+  Qed.
+
+  Lemma lb_eof_blk l l' x p : c_find_line_in_block bs f l (lenN f) = (l', x, p) -> l_blk l' = l_blk l \/ lenN f < lenN f.
+  Proof.
+    unfold c_find_line_in_block. destruct (lr_check_lru l (lenN f)) as [l1 [y|]] eqn:CL.
+    - intro H; injection H as <- _ _. left. apply (blk_check_lru _ _ _ _ CL).
+    - replace ((lenN f =? 0) || (lenN f <? lenN f) || (lenN f =? lenN f)) with true
+        by (rewrite N.eqb_refl; destruct (lenN f =? 0), (lenN f <? lenN f); reflexivity).
+      intro H; injection H as <- _ _. left. apply (blk_check_lru _ _ _ _ CL).
+  Qed.
+
+  (* every block can be read: the statements for lr_inv *)
+  Lemma reads_ok_tot l bo : lr_tot l -> bo <= blast bs f -> 0 < lenN f -> reads_ok l bo.
+  Proof.
+    intros T B F l2 ip E. destruct (lr_read bs f l2 ip bo) as [l3 rr] eqn:RD.
+    destruct (lr_read_ok bs f _ _ _ _ _ RD) as (_ & X). cbn. apply X; auto. unfold lr_tot. rewrite E. exact T.
+  Qed.
+
+  Theorem lb_seq l fo l' r part p : lr_inv l -> lru_stored l -> fo < lenN f -> line_beg f fo = fo ->
+    pred_stored l fo -> c_find_line_in_block bs f l fo = (l', (r, part), p) ->
+    lr_inv l' /\ lru_stored l' /\ (forall x, stored_at l x -> stored_at l' x) /\
+    ((exists s, r = Found (line_end f fo + 1, s) /\ sline_ok s fo (line_end f fo) /\ stored_at l' fo) \/
+     (r = Done /\ fo + 1 < lenN f /\
+      match part with
+      | None => True
+      | Some s => bytes_of bs f (sl_parts s) = slice f fo (fo + 1) /\ line_fo_begin bs (sl_parts s) = Some fo
+      end)).
+  Proof.
+    intros [I T] S L LB PS H.
+    assert (RD0 : ~ stored_at l fo -> reads_ok l (block_offset_at_file_offset fo bs)).
+    { intros _. apply reads_ok_tot; [exact T|apply (blockoffset_last_ge (lenN f) bs fo Hbs L)|lia]. }
+    destruct (lb_seq0 _ _ _ _ _ _ I S L LB PS RD0 H) as (A & B & C & _ & BK & R).
+    split; [|auto]. split; [exact A|].
+    destruct BK as [E|(_ & l2 & ip & E2 & E)]; unfold lr_tot in *; rewrite E; [exact T|].
+    destruct (lr_read bs f l2 ip (block_offset_at_file_offset fo bs)) as [l3 rr] eqn:RD.
+    destruct (lr_read_ok bs f _ _ _ _ _ RD) as (_ & X). cbn.
+    apply X; [unfold lr_tot; rewrite E2; exact T|apply (blockoffset_last_ge (lenN f) bs fo Hbs L)|lia].
+  Qed.
+
+  Lemma lb_eof l l' r part p : lr_inv l -> lru_stored l ->
+    c_find_line_in_block bs f l (lenN f) = (l', (r, part), p) ->
+    r = Done /\ part = None /\ lr_inv l' /\ lru_stored l' /\ (forall x, stored_at l x -> stored_at l' x).
+  Proof.
+    intros [I T] S C. destruct (lb_eof0 _ _ _ _ _ I S C) as (A & B & I' & S' & M).
+    split; [exact A|]. split; [exact B|]. split; [|auto]. split; [exact I'|].
+    destruct (lb_eof_blk _ _ _ _ C) as [E|E]; [|lia]. unfold lr_tot. rewrite E. exact T.
   Qed.
 End GateLines.
 
@@ -415,18 +579,47 @@ Section GateSys.
   Hypothesis Hpart : forall b z, b < lenN f -> line_beg f b = b ->
     dated (slice f b (b + 1)) = Some z -> dated (slice f b (line_end f b + 1)) = Some z.
 
-  Local Notation sr_inv := (sr_inv dated bs f).
-  Local Notation lr_inv := (lr_inv bs f).
+
+  (* the section is generic in the invariant LI of the inner LineReader and in the guard RG l fo under which
+     find_line_in_block at fo is answered (nothing for a plain file: every block can be read; for a streamed
+     file: fo is not beyond the frontier of the forward reads, CachesFwdProofs); the two hypotheses are
+     what the LineReader must provide (GateLines.lb_seq0, lb_eof0) *)
+  Context {LI : lr_state -> Prop}.
+  Variable RG : lr_state -> N -> Prop.
+  Hypothesis LI_inv0 : forall l, LI l -> lr_inv0 bs f l.
+  Hypothesis H_seq : forall l ex fo l' r part p, LI l -> lru_stored l -> fo < lenN f -> line_beg f fo = fo ->
+    pred_stored l fo -> RG l fo -> c_find_line_in_block bs f (lr_set_ext ex l) fo = (l', (r, part), p) ->
+    LI l' /\ lru_stored l' /\ (forall x, stored_at l x -> stored_at l' x) /\ (forall y, RG l y -> RG l' y) /\
+    ((exists s, r = Found (line_end f fo + 1, s) /\ sline_ok bs f s fo (line_end f fo) /\ stored_at l' fo /\
+                RG l' (line_end f fo + 1)) \/
+     (r = Done /\ fo + 1 < lenN f /\
+      match part with
+      | None => True
+      | Some s => bytes_of bs f (sl_parts s) = slice f fo (fo + 1) /\ line_fo_begin bs (sl_parts s) = Some fo
+      end)).
+  Hypothesis H_eof : forall l ex l' r part p, LI l -> lru_stored l ->
+    c_find_line_in_block bs f (lr_set_ext ex l) (lenN f) = (l', (r, part), p) ->
+    r = Done /\ part = None /\ LI l' /\ lru_stored l' /\ (forall x, stored_at l x -> stored_at l' x) /\
+    (forall y, RG l y -> RG l' y).
+
+  Local Notation sr_inv := (@sr_inv dated bs f LI).
   Local Notation is_group := (is_group dated f).
   Local Notation ssl_ok := (ssl_ok bs f).
   Local Notation sline_ok := (sline_ok bs f).
   Local Notation consec := (consec bs f).
   Local Notation stored_at := stored_at.
   Local Notation pred_stored := pred_stored.
-  Local Notation lru_stored := (lru_stored bs).
-  Local Notation rinv := (rinv dated bs f).
+  Local Notation rinv := (@rinv dated bs f LI).
 
-  Definition ginv (st : sr_state) : Prop := rinv st /\ no_dangling st /\ lru_stored (s_lr st).
+  (* the line that follows each message the sysline-level caches hold (and that ends at or after d) is stored in
+     the inner LineReader, unless the message ends the file: loop B found it *)
+  Definition next_stored (st : sr_state) (d : N) : Prop :=
+    (forall k s e, alookup k (s_syslines st) = Some s -> ss_end bs s = Some e -> d <= e + 1 ->
+       e + 1 = lenN f \/ stored_at (s_lr st) (e + 1)) /\
+    (forall k n s, alookup k (s_lru st) = Some (SF n s) -> d <= n -> n = lenN f \/ stored_at (s_lr st) n).
+
+  Definition ginv (st : sr_state) : Prop :=
+    rinv st /\ no_dangling st /\ lru_stored (s_lr st) /\ next_stored st 0.
 
   (* nothing the sysline-level caches hold reaches beyond fo *)
   Definition all_behind (st : sr_state) (fo : N) : Prop :=
@@ -445,12 +638,12 @@ Section GateSys.
     fo = 0 \/ exists b, stored_at (s_lr st) b /\ span f b (fo - 1) /\ 0 < fo.
 
   Definition at_line (st : sr_state) (fo : N) : Prop :=
-    fo <= lenN f /\ (fo = lenN f \/ line_beg f fo = fo) /\ (fo < lenN f -> pred_sem st fo).
+    fo <= lenN f /\ (fo = lenN f \/ line_beg f fo = fo) /\ (fo < lenN f -> pred_sem st fo) /\ RG (s_lr st) fo.
 
   Lemma pred_sem_stored st fo : ginv st -> pred_sem st fo -> pred_stored (s_lr st) fo.
   Proof.
     intros ((I & _) & _) [Z|(b & ST & SP & P)]; [left; exact Z|].
-    pose proof (stored_pred bs f Hbs _ _ _ (si_lr _ _ _ _ I) ST SP) as X.
+    pose proof (stored_pred bs f Hbs _ _ _ (LI_inv0 _ (si_lr _ _ _ _ I)) ST SP) as X.
     replace (fo - 1 + 1) with fo in X by lia. exact X.
   Qed.
 
@@ -459,8 +652,11 @@ Section GateSys.
   Proof. intros M [Z|(b & ST & SP)]; [left; exact Z|right; exists b; split; [apply M; exact ST|exact SP]]. Qed.
 
   Lemma at_line_mono st st' fo : (forall x, stored_at (s_lr st) x -> stored_at (s_lr st') x) ->
-    at_line st fo -> at_line st' fo.
-  Proof. intros M (A & B & C). split; [exact A|]. split; [exact B|]. intro L. eapply pred_sem_mono; eauto. Qed.
+    (forall y, RG (s_lr st) y -> RG (s_lr st') y) -> at_line st fo -> at_line st' fo.
+  Proof.
+    intros M MR (A & B & C & D). split; [exact A|]. split; [exact B|]. split; [|apply MR; exact D].
+    intro L. eapply pred_sem_mono; eauto.
+  Qed.
 
   Lemma consec_lt lns b e1 : consec lns b e1 -> lns <> [] -> b < e1.
   Proof. intros C NE. destruct (consec_end bs f Hbs _ _ _ C NE) as (? & ? & ? & _ & _ & _ & _ & X). exact X. Qed.
@@ -491,7 +687,7 @@ Section GateSys.
       exists (ss_lines s). auto.
     - congruence.
     - contradiction.
-    - destruct R as (v & RG & _). cbn in RG. discriminate.
+    - destruct R as (v & RGv & _). cbn in RGv. discriminate.
   Qed.
 
   (* the parse of find_line_in_block's partial line: the first byte of the line that begins at b *)
@@ -517,49 +713,59 @@ Section GateSys.
     - intro H; injection H as <- <-. split; [exact I|]. split; [repeat split|split; reflexivity].
   Qed.
 
-  Lemma ginv_lr st l : ginv st -> lr_inv l -> lru_stored l -> ginv (sr_set_lr l st).
+  Lemma ginv_lr st l : ginv st -> LI l -> lru_stored l -> (forall x, stored_at (s_lr st) x -> stored_at l x) ->
+    ginv (sr_set_lr l st).
   Proof.
-    intros ((I & AS) & ND & _) L S. split; [split; [apply sr_inv_set_lr; assumption|exact AS]|]. split; [exact ND|exact S].
+    intros ((I & AS) & ND & _ & (N1 & N2)) L S M. split; [split; [apply sr_inv_set_lr; assumption|exact AS]|].
+    split; [exact ND|]. split; [exact S|]. split.
+    - intros k s e A B C. destruct (N1 k s e A B C) as [Q|Q]; [left; exact Q|right; apply M; exact Q].
+    - intros k n s A C. destruct (N2 k n s A C) as [Q|Q]; [left; exact Q|right; apply M; exact Q].
   Qed.
 
-  Lemma ginv_frame st st' : ginv st -> sr_inv st' -> frame st st' -> s_lr st' = s_lr st -> ginv st'.
+  Lemma ginv_frame st st' : ginv st -> sr_inv st' -> frame st st' -> s_lr st' = s_lr st -> s_lru st' = s_lru st ->
+    ginv st'.
   Proof.
-    intros ((I & AS) & ND & S) I' (F1 & F2 & _) LR. split; [split; [exact I'|rewrite F1; exact AS]|].
-    split; [|rewrite LR; exact S]. intros a b v. rewrite F1, F2. apply ND.
+    intros ((I & AS) & ND & S & (N1 & N2)) I' (F1 & F2 & _) LR LU. split; [split; [exact I'|rewrite F1; exact AS]|].
+    split; [intros a b v; rewrite F1, F2; apply ND|]. split; [rewrite LR; exact S|].
+    split; [rewrite F1, LR; exact N1|rewrite LU, LR; exact N2].
   Qed.
 
   (* find_line_in_block through the SyslineReader, at a line begin whose predecessor is known *)
   Lemma sr_lb_seq st acc fo st' r part : ginv st -> fo < lenN f -> line_beg f fo = fo -> pred_stored (s_lr st) fo ->
+    RG (s_lr st) fo ->
     sr_find_line_in_block bs f st acc fo = (st', (r, part)) ->
     ginv st' /\ frame st st' /\ s_lru st' = s_lru st /\ s_parse st' = s_parse st /\
     (forall x, stored_at (s_lr st) x -> stored_at (s_lr st') x) /\
-    ((exists s, r = Found (line_end f fo + 1, s) /\ sline_ok s fo (line_end f fo) /\ stored_at (s_lr st') fo) \/
+    (forall y, RG (s_lr st) y -> RG (s_lr st') y) /\
+    ((exists s, r = Found (line_end f fo + 1, s) /\ sline_ok s fo (line_end f fo) /\ stored_at (s_lr st') fo /\
+                RG (s_lr st') (line_end f fo + 1)) \/
      (r = Done /\ fo + 1 < lenN f /\
       match part with
       | None => True
       | Some s => bytes_of bs f (sl_parts s) = slice f fo (fo + 1) /\ line_fo_begin bs (sl_parts s) = Some fo
       end)).
   Proof.
-    intros GI L LB PS. unfold sr_find_line_in_block.
+    intros GI L LB PS G0. unfold sr_find_line_in_block.
     destruct (c_find_line_in_block bs f (lr_set_ext (sr_held st acc) (s_lr st)) fo) as [[l' [r' part']] p] eqn:C.
     intro H; injection H as <- <- <-.
-    pose proof GI as ((I & _) & _ & S).
-    destruct (lb_seq bs f Hbs _ _ _ _ _ _ (lr_set_ext_inv bs f _ _ (si_lr _ _ _ _ I)) S L LB PS C) as (I' & S' & MONO & R).
+    pose proof GI as ((I & _) & _ & S & _).
+    destruct (H_seq _ _ _ _ _ _ _ (si_lr _ _ _ _ I) S L LB PS G0 C) as (I' & S' & MONO & MR & R).
     split; [apply ginv_lr; assumption|]. split; [repeat split|]. split; [reflexivity|]. split; [reflexivity|].
-    split; [exact MONO|exact R].
+    split; [exact MONO|]. split; [exact MR|exact R].
   Qed.
 
   Lemma sr_lb_eof st acc st' r part : ginv st -> sr_find_line_in_block bs f st acc (lenN f) = (st', (r, part)) ->
     r = Done /\ part = None /\ ginv st' /\ frame st st' /\ s_lru st' = s_lru st /\
-    (forall x, stored_at (s_lr st) x -> stored_at (s_lr st') x).
+    (forall x, stored_at (s_lr st) x -> stored_at (s_lr st') x) /\
+    (forall y, RG (s_lr st) y -> RG (s_lr st') y).
   Proof.
     intros GI FL. unfold sr_find_line_in_block in FL.
     destruct (c_find_line_in_block bs f (lr_set_ext (sr_held st acc) (s_lr st)) (lenN f)) as [[l' [r' part']] p] eqn:C.
     injection FL as <- <- <-.
-    pose proof GI as ((I & _) & _ & S).
-    destruct (lb_eof bs f Hbs _ _ _ _ _ (lr_set_ext_inv bs f _ _ (si_lr _ _ _ _ I)) S C) as (-> & -> & I' & S' & MONO).
+    pose proof GI as ((I & _) & _ & S & _).
+    destruct (H_eof _ _ _ _ _ _ (si_lr _ _ _ _ I) S C) as (-> & -> & I' & S' & MONO & MR).
     split; [reflexivity|]. split; [reflexivity|]. split; [apply ginv_lr; assumption|].
-    split; [repeat split|]. split; [reflexivity|exact MONO].
+    split; [repeat split|]. split; [reflexivity|]. split; [exact MONO|exact MR].
   Qed.
 
   (* loop A of find_sysline_in_block *)
@@ -567,24 +773,26 @@ Section GateSys.
     ib_loop_a dated fuel bs f st fo1 = (st', r) ->
     ginv st' /\ frame st st' /\ s_lru st' = s_lru st /\
     (forall x, stored_at (s_lr st) x -> stored_at (s_lr st') x) /\
+    (forall y, RG (s_lr st) y -> RG (s_lr st') y) /\
     match r with
     | IBhead dt ln fo1' =>
         exists hb he, fo1 <= hb /\ sline_ok ln hb he /\ fo1' = he + 1 /\ stored_at (s_lr st') hb /\
-                      dated (slice f hb (he + 1)) = Some dt /\ undated_between fo1 hb
+                      dated (slice f hb (he + 1)) = Some dt /\ undated_between fo1 hb /\ RG (s_lr st') fo1'
     | IBdone _ => True
     | IBfail x => x = OutOfFuel
     end.
   Proof.
-    induction fuel as [|k IH]; intros st fo1 st' r GI (A1 & A2 & A3); cbn [ib_loop_a].
+    induction fuel as [|k IH]; intros st fo1 st' r GI (A1 & A2 & A3 & A4); cbn [ib_loop_a].
     { intro H; injection H as <- <-. split; [exact GI|]. split; [apply frame_refl|]. auto. }
     destruct (sr_find_line_in_block bs f st [] fo1) as [st1 [r1 part1]] eqn:FL.
     destruct (N.eq_dec fo1 (lenN f)) as [EOF|NEOF].
     { (* at the end of the file: Done *)
-      rewrite EOF in FL. destruct (sr_lb_eof _ _ _ _ _ GI FL) as (-> & -> & GI1 & F1 & U1 & MONO1).
-      intro H; injection H as <- <-. split; [exact GI1|]. split; [exact F1|]. split; [exact U1|]. split; [exact MONO1|exact Logic.I]. }
+      rewrite EOF in FL. destruct (sr_lb_eof _ _ _ _ _ GI FL) as (-> & -> & GI1 & F1 & U1 & MONO1 & MR1).
+      intro H; injection H as <- <-. split; [exact GI1|]. split; [exact F1|]. split; [exact U1|]. split; [exact MONO1|].
+      split; [exact MR1|exact Logic.I]. }
     assert (L : fo1 < lenN f) by lia.
     assert (LB : line_beg f fo1 = fo1) by (destruct A2; [contradiction|assumption]).
-    destruct (sr_lb_seq _ _ _ _ _ _ GI L LB (pred_sem_stored _ _ GI (A3 L)) FL) as (GI1 & F1 & U1 & P1 & MONO1 & [(s & -> & OK & ST)|(-> & LONG & PART)]).
+    destruct (sr_lb_seq _ _ _ _ _ _ GI L LB (pred_sem_stored _ _ GI (A3 L)) A4 FL) as (GI1 & F1 & U1 & P1 & MONO1 & MR1 & [(s & -> & OK & ST & RGN)|(-> & LONG & PART)]).
     - destruct (sr_parse dated bs f st1 s) as [st2 o] eqn:PA.
       pose proof GI1 as ((I1 & _) & _).
       destruct (sr_parse_ok dated bs f Hbs _ _ _ _ _ _ I1 OK PA) as (I2 & -> & F2 & U2).
@@ -593,28 +801,31 @@ Section GateSys.
         destruct (line_fo_begin bs (sl_parts s)); [|intro H; injection H as <- _; reflexivity].
         destruct (lru_get n (s_parse st1)) as [[z|] c]; [intro H; injection H as <- _; reflexivity|].
         destruct (dated _); intro H; injection H as <- _; reflexivity. }
-      pose proof (ginv_frame _ _ GI1 I2 F2 LR2) as GI2.
+      pose proof (ginv_frame _ _ GI1 I2 F2 LR2 U2) as GI2.
       destruct (line_ok_facts bs f _ _ _ OK) as (_ & EN & _). unfold sl_parts in *.
       destruct (dated (slice f fo1 (line_end f fo1 + 1))) as [dt|] eqn:D.
       + rewrite EN. intro H; injection H as <- <-. split; [exact GI2|]. split; [eapply frame_trans; eauto|].
         split; [congruence|]. split; [intros x X; rewrite LR2; apply MONO1; exact X|].
+        split; [intros y Y; rewrite LR2; apply MR1; exact Y|].
         exists fo1, (line_end f fo1). split; [lia|]. split; [exact OK|]. split; [reflexivity|].
-        split; [rewrite LR2; exact ST|]. split; [exact D|]. intros x X1 X2. lia.
+        split; [rewrite LR2; exact ST|]. split; [exact D|]. split; [intros x X1 X2; lia|rewrite LR2; exact RGN].
       + intro H.
         destruct OK as [SP CH]. pose proof SP as (_ & EL & _).
         assert (AT2 : at_line st2 (line_end f fo1 + 1)).
-        { split; [lia|]. split.
+        { split; [lia|]. split; [|split].
           - destruct (N.eq_dec (line_end f fo1 + 1) (lenN f)); [left; assumption|right]. apply (span_next_beg f fo1 _ SP). lia.
           - intros _. right. exists fo1. rewrite LR2. split; [exact ST|].
-            replace (line_end f fo1 + 1 - 1) with (line_end f fo1) by lia. split; [exact SP|lia]. }
-        destruct (IH _ _ _ _ GI2 AT2 H) as (GI3 & F3 & U3 & MONO3 & R3).
+            replace (line_end f fo1 + 1 - 1) with (line_end f fo1) by lia. split; [exact SP|lia].
+          - rewrite LR2. exact RGN. }
+        destruct (IH _ _ _ _ GI2 AT2 H) as (GI3 & F3 & U3 & MONO3 & MR3 & R3).
         split; [exact GI3|]. split; [eapply frame_trans; [eapply frame_trans|]; eauto|]. split; [congruence|].
         split; [intros x X; apply MONO3; rewrite LR2; apply MONO1; exact X|].
+        split; [intros y Y; apply MR3; rewrite LR2; apply MR1; exact Y|].
         destruct r as [dt ln fo1'|b|x]; try exact R3.
-        destruct R3 as (hb & he & B1 & OKh & E & STh & Dh & UB).
+        destruct R3 as (hb & he & B1 & OKh & E & STh & Dh & UB & RGh).
         assert (SLE : fo1 <= line_end f fo1) by (destruct SP as (? & _); assumption).
         exists hb, he. split; [lia|].
-        split; [exact OKh|]. split; [exact E|]. split; [exact STh|]. split; [exact Dh|].
+        split; [exact OKh|]. split; [exact E|]. split; [exact STh|]. split; [exact Dh|]. split; [|exact RGh].
         intros x X1 X2 X3. destruct (N.lt_ge_cases x (line_end f fo1 + 1)) as [C|C]; [|apply UB; assumption].
         destruct (span_in f _ _ x SP X1 ltac:(lia)) as [Q1 Q2]. rewrite X3 in Q1. subst x. exact D.
     - destruct part1 as [ps|].
@@ -622,11 +833,13 @@ Section GateSys.
         destruct (sr_parse dated bs f st1 ps) as [st2 o] eqn:PA.
         pose proof GI1 as ((I1 & _) & _).
         destruct (sr_parse_partial _ _ _ _ _ I1 L LB BY BG PA) as (I2 & F2 & U2 & LR2).
-        pose proof (ginv_frame _ _ GI1 I2 F2 LR2) as GI2.
+        pose proof (ginv_frame _ _ GI1 I2 F2 LR2 U2) as GI2.
         destruct o; intro H; injection H as <- <-;
           (split; [exact GI2|]; split; [eapply frame_trans; eauto|]; split; [congruence|];
-           split; [intros x X; rewrite LR2; apply MONO1; exact X|exact Logic.I]).
-      + intro H; injection H as <- <-. split; [exact GI1|]. split; [exact F1|]. split; [exact U1|]. split; [exact MONO1|exact Logic.I].
+           split; [intros x X; rewrite LR2; apply MONO1; exact X|];
+           split; [intros y Y; rewrite LR2; apply MR1; exact Y|exact Logic.I]).
+      + intro H; injection H as <- <-. split; [exact GI1|]. split; [exact F1|]. split; [exact U1|]. split; [exact MONO1|].
+        split; [exact MR1|exact Logic.I].
   Qed.
 
   Lemma parse_keeps_lr st s st' o : sr_parse dated bs f st s = (st', o) -> s_lr st' = s_lr st.
@@ -642,11 +855,12 @@ Section GateSys.
     ib_loop_b dated fuel bs f st fo1 acc = (st', r) ->
     ginv st' /\ frame st st' /\ s_lru st' = s_lru st /\
     (forall x, stored_at (s_lr st) x -> stored_at (s_lr st') x) /\
+    (forall y, RG (s_lr st) y -> RG (s_lr st') y) /\
     match r with
     | Found (Some (fo_b, lns)) =>
         consec lns b0 fo_b /\ lns <> [] /\ fo1 <= fo_b /\ undated_between fo1 fo_b /\
         (fo_b = lenN f \/ (fo_b < lenN f /\ line_beg f fo_b = fo_b /\ dated (slice f fo_b (line_end f fo_b + 1)) <> None)) /\
-        at_line st' fo_b
+        at_line st' fo_b /\ (fo_b = lenN f \/ stored_at (s_lr st') fo_b)
     | Found None => True
     | OutOfFuel => True
     | _ => False
@@ -654,51 +868,58 @@ Section GateSys.
   Proof.
     induction fuel as [|k IH]; intros st fo1 acc b0 st' r GI AT C NE; cbn [ib_loop_b].
     { intro H; injection H as <- <-. split; [exact GI|]. split; [apply frame_refl|]. auto. }
-    pose proof AT as (A1 & A2 & A3).
+    pose proof AT as (A1 & A2 & A3 & A4).
     destruct (sr_find_line_in_block bs f st acc fo1) as [st1 [r1 part1]] eqn:FL.
     destruct (consec_end bs f Hbs _ _ _ C NE) as (sl & b' & e' & LAST & SLOK & EE & _ & BLT).
     assert (F0 : 0 < lenN f) by (destruct SLOK as [(_ & ? & _) _]; lia).
     destruct (N.eq_dec fo1 (lenN f)) as [EOF|NEOF].
-    { rewrite EOF in FL. destruct (sr_lb_eof _ _ _ _ _ GI FL) as (-> & -> & GI1 & F1 & U1 & MONO1).
+    { rewrite EOF in FL. destruct (sr_lb_eof _ _ _ _ _ GI FL) as (-> & -> & GI1 & F1 & U1 & MONO1 & MR1).
       unfold fileoffset_last. destruct (N.eqb_spec (lenN f) 0); [lia|].
       destruct (N.ltb_spec fo1 (lenN f - 1)) as [Q|Q]; [lia|].
       unfold slast in LAST. destruct (rev acc) as [|x xs]; [discriminate|]. inversion LAST; subst x.
       destruct (line_ok_facts bs f _ _ _ SLOK) as (_ & EN & _). unfold sl_parts in *. rewrite EN.
       intro HH; injection HH as <- <-. split; [exact GI1|]. split; [exact F1|]. split; [exact U1|]. split; [exact MONO1|].
+      split; [exact MR1|].
       rewrite EE. split; [exact C|]. split; [exact NE|]. split; [lia|]. split; [intros x X1 X2; lia|].
-      split; [left; exact EOF|]. eapply at_line_mono; eauto. }
+      split; [left; exact EOF|]. split; [eapply at_line_mono; eauto|left; exact EOF]. }
     assert (L : fo1 < lenN f) by lia.
     assert (LB : line_beg f fo1 = fo1) by (destruct A2; [contradiction|assumption]).
-    destruct (sr_lb_seq _ _ _ _ _ _ GI L LB (pred_sem_stored _ _ GI (A3 L)) FL) as (GI1 & F1 & U1 & P1 & MONO1 & [(s & -> & OK & ST)|(-> & LONG & PART)]).
+    destruct (sr_lb_seq _ _ _ _ _ _ GI L LB (pred_sem_stored _ _ GI (A3 L)) A4 FL) as (GI1 & F1 & U1 & P1 & MONO1 & MR1 & [(s & -> & OK & ST & RGN)|(-> & LONG & PART)]).
     - destruct (sr_parse dated bs f st1 s) as [st2 o] eqn:PA.
       pose proof GI1 as ((I1 & _) & _).
       destruct (sr_parse_ok dated bs f Hbs _ _ _ _ _ _ I1 OK PA) as (I2 & -> & F2 & U2).
       pose proof (parse_keeps_lr _ _ _ _ PA) as LR2.
-      pose proof (ginv_frame _ _ GI1 I2 F2 LR2) as GI2.
+      pose proof (ginv_frame _ _ GI1 I2 F2 LR2 U2) as GI2.
       assert (MONO2 : forall x, stored_at (s_lr st) x -> stored_at (s_lr st2) x) by (intros x X; rewrite LR2; apply MONO1; exact X).
+      assert (MR2 : forall y, RG (s_lr st) y -> RG (s_lr st2) y) by (intros y Y; rewrite LR2; apply MR1; exact Y).
       destruct (dated (slice f fo1 (line_end f fo1 + 1))) as [dt|] eqn:D.
       + intro H; injection H as <- <-. split; [exact GI2|]. split; [eapply frame_trans; eauto|]. split; [congruence|].
-        split; [exact MONO2|]. split; [exact C|]. split; [exact NE|]. split; [lia|]. split; [intros x X1 X2; lia|].
-        split; [right; split; [exact L|split; [exact LB|congruence]]|]. eapply at_line_mono; eauto.
+        split; [exact MONO2|]. split; [exact MR2|].
+        split; [exact C|]. split; [exact NE|]. split; [lia|]. split; [intros x X1 X2; lia|].
+        split; [right; split; [exact L|split; [exact LB|congruence]]|]. split; [eapply at_line_mono; eauto|].
+        right. rewrite LR2. exact ST.
       + intro H. destruct OK as [SP CH]. pose proof SP as (SLE & EL & _).
         assert (AT2 : at_line st2 (line_end f fo1 + 1)).
-        { split; [lia|]. split.
+        { split; [lia|]. split; [|split].
           - destruct (N.eq_dec (line_end f fo1 + 1) (lenN f)); [left; assumption|right]. apply (span_next_beg f fo1 _ SP). lia.
           - intros _. right. exists fo1. rewrite LR2. split; [exact ST|].
-            replace (line_end f fo1 + 1 - 1) with (line_end f fo1) by lia. split; [exact SP|lia]. }
+            replace (line_end f fo1 + 1 - 1) with (line_end f fo1) by lia. split; [exact SP|lia].
+          - rewrite LR2. exact RGN. }
         assert (C2 : consec (acc ++ [s]) b0 (line_end f fo1 + 1)).
         { eapply consec_app; [exact C|]. cbn. exists (line_end f fo1). split; [split; assumption|reflexivity]. }
-        destruct (IH _ _ _ b0 _ _ GI2 AT2 C2 ltac:(destruct acc; discriminate) H) as (GI3 & F3 & U3 & MONO3 & R3).
+        destruct (IH _ _ _ b0 _ _ GI2 AT2 C2 ltac:(destruct acc; discriminate) H) as (GI3 & F3 & U3 & MONO3 & MR3 & R3).
         split; [exact GI3|]. split; [eapply frame_trans; [eapply frame_trans|]; eauto|]. split; [congruence|].
         split; [intros x X; apply MONO3; apply MONO2; exact X|].
+        split; [intros y Y; apply MR3; apply MR2; exact Y|].
         destruct r as [[[fo_b lns]|]| | |]; try exact R3.
-        destruct R3 as (CC & NE' & LE' & UB & STOP & AT3).
-        split; [exact CC|]. split; [exact NE'|]. split; [lia|]. split; [|split; assumption].
+        destruct R3 as (CC & NE' & LE' & UB & STOP & AT3 & NX3).
+        split; [exact CC|]. split; [exact NE'|]. split; [lia|]. split; [|split; [assumption|split; assumption]].
         intros x X1 X2 X3. destruct (N.lt_ge_cases x (line_end f fo1 + 1)) as [Q|Q]; [|apply UB; assumption].
         destruct (span_in f _ _ x SP X1 ltac:(lia)) as [Q1 Q2]. rewrite X3 in Q1. subst x. exact D.
     - unfold fileoffset_last. destruct (N.eqb_spec (lenN f) 0); [lia|].
       destruct (N.ltb_spec fo1 (lenN f - 1)) as [Q|Q]; [|lia].
-      intro HH; injection HH as <- <-. split; [exact GI1|]. split; [exact F1|]. split; [exact U1|]. split; [exact MONO1|exact Logic.I].
+      intro HH; injection HH as <- <-. split; [exact GI1|]. split; [exact F1|]. split; [exact U1|]. split; [exact MONO1|].
+      split; [exact MR1|exact Logic.I].
   Qed.
 
   (* ---------------------------------------------------------------- one call of the pattern *)
@@ -707,7 +928,7 @@ Section GateSys.
     ginv st /\ all_behind st fo /\ gate_ok fo /\ at_line st fo.
 
   Lemma ginv_cnt d st : ginv st -> ginv (sr_cnt d st).
-  Proof. intros ((I & AS) & ND & S). split; [split; [apply sr_inv_cnt; exact I|exact AS]|]. split; assumption. Qed.
+  Proof. intros ((I & AS) & ND & S & NX). split; [split; [apply sr_inv_cnt; exact I|exact AS]|]. split; [exact ND|]. split; assumption. Qed.
 
   Lemma check_store_miss st fo : all_behind st fo ->
     sr_check_store bs f st fo = (None, sr_cnt d_miss (sr_cnt d_range_miss (sr_cnt d_lru_miss st))) \/
@@ -744,12 +965,12 @@ Section GateSys.
     span f hb he -> dated (slice f hb (he + 1)) = Some dt ->
     consec lns hb fo_b -> lns <> [] -> he + 1 <= fo_b -> undated_between (he + 1) fo_b ->
     (fo_b = lenN f \/ (fo_b < lenN f /\ line_beg f fo_b = fo_b /\ dated (slice f fo_b (line_end f fo_b + 1)) <> None)) ->
-    at_line st fo_b ->
+    at_line st fo_b -> (fo_b = lenN f \/ stored_at (s_lr st) fo_b) ->
     sr_store_found bs st fo fo_b dt lns = (st', r, p) ->
     gate_pre st' fo_b /\ fo < fo_b /\ exists s, r = Found (fo_b, s).
   Proof.
-    intros GI AB GO LE UB SP DD CC NE HE UB2 STOP AT.
-    pose proof GI as ((I & AS) & ND & LS).
+    intros GI AB GO LE UB SP DD CC NE HE UB2 STOP AT NXB.
+    pose proof GI as ((I & AS) & ND & LS & (N1 & N2)).
     destruct (span_in f hb he hb SP ltac:(lia) ltac:(destruct SP; lia)) as [LBH LEH].
     assert (LH : hb < lenN f) by (destruct SP as (? & ? & _); lia).
     rewrite <- LEH in DD.
@@ -791,8 +1012,21 @@ Section GateSys.
     split; [|split; [|split]].
     - (* ginv *)
       split; [split; [apply sr_put_inv; assumption|rewrite sys_put, Y1; apply asc_ainsert; exact AS]|].
-      split; [|rewrite LRP; exact LS].
-      eapply (insert_dangling st _ hb (s_nid st, dt, lns) g 0 ND P); [rewrite sys_put; exact Y1|rewrite range_put, Y2, EQ; reflexivity].
+      split; [eapply (insert_dangling st _ hb (s_nid st, dt, lns) g 0 ND P); [rewrite sys_put; exact Y1|rewrite range_put, Y2, EQ; reflexivity]|].
+      split; [rewrite LRP; exact LS|].
+      (* the line after the new message is stored (loop B stopped at it), or the message ends the file *)
+      split.
+      + intros k s e. rewrite sys_put, Y1, alookup_ainsert, LRP. destruct (N.eqb_spec k hb) as [->|NEk].
+        * intro X; inversion X; subst s. intros EN _.
+          destruct (ssl_ok_facts bs f Hbs _ _ _ OK P) as (_ & EN' & _). rewrite EN' in EN. inversion EN; subst e.
+          replace (hb + glen g - 1 + 1) with fo_b by lia. exact NXB.
+        * intros X EN D. exact (N1 k s e X EN D).
+      + intros k n s. rewrite LRP. unfold sr_put. destruct (s_on st5).
+        * intro X. change (alookup k (lru_put SYSLINE_LRU_CAP fo (SF fo_b (s_nid st, dt, lns)) (s_lru st5)) = Some (SF n s)) in X.
+          apply lru_put_lookup in X as [[-> E]|[_ X]].
+          -- inversion E; subst. intros _. exact NXB.
+          -- rewrite Y4 in X. intros D. exact (N2 k n s X D).
+        * rewrite Y4. intros X D. exact (N2 _ _ _ X D).
     - (* all_behind *)
       destruct AB as (B1 & B2 & B3). split; [|split].
       + intros a b v. rewrite range_put, Y2. unfold range_insert. destruct (N.ltb_spec hb (hb + glen g)); [|lia].
@@ -808,7 +1042,8 @@ Section GateSys.
       destruct (with_offsets_disjoint _ _ _ _ _ _ G G') as [E|[E|E]]; [inversion E; subst; lia|lia|].
       destruct (is_group_pos dated f _ _ G') as (P' & _). lia.
     - (* at_line *)
-      destruct AT as (A1 & A2 & A3). split; [exact A1|]. split; [exact A2|]. intro L2. specialize (A3 L2).
+      destruct AT as (A1 & A2 & A3 & A4). split; [exact A1|]. split; [exact A2|]. split; [|rewrite LRP; exact A4].
+      intro L2. specialize (A3 L2).
       destruct A3 as [Z|(b & ST & X)]; [left; exact Z|right]. exists b. unfold stored_at in *. rewrite LRP. auto.
   Qed.
 
@@ -826,12 +1061,12 @@ Section GateSys.
     destruct CSM as (st0 & -> & GI0 & AB0' & AT0').
     pose proof AB0' as AB0. pose proof AT0' as AT0.
     destruct (ib_loop_a dated (S (length f)) bs f st0 fo) as [st1 ra] eqn:LA.
-    destruct (ib_loop_a_ok _ _ _ _ _ GI0 AT0 LA) as (GI1 & F1 & U1 & MONO1 & RA).
+    destruct (ib_loop_a_ok _ _ _ _ _ GI0 AT0 LA) as (GI1 & F1 & U1 & MONO1 & MR1 & RA).
     assert (AB1 : forall stx, frame st0 stx -> s_lru stx = s_lru st0 -> all_behind stx fo).
     { intros stx (E1 & E2 & _) E3. destruct AB0 as (B1 & B2 & B3). split; [rewrite E2; exact B1|].
       split; [rewrite E3; exact B2|rewrite E1; exact B3]. }
     destruct ra as [dt ln fo1'|b|x].
-    - destruct RA as (hb & he & LE & OK & -> & ST & DD & UB).
+    - destruct RA as (hb & he & LE & OK & -> & ST & DD & UB & RGH).
       destruct OK as [SP CH].
       destruct (is_sysline_last bs f (dt, [sl_parts ln])) eqn:LAST.
       + (* the head line is the last line of the file *)
@@ -843,27 +1078,28 @@ Section GateSys.
         destruct (sr_store_found bs st1 fo (he + 1) dt [ln]) as [[st2 r2] p2] eqn:SF.
         intro H; injection H as <- <- <- <-.
         assert (AT1 : at_line st1 (he + 1)).
-        { split; [lia|]. split; [left; exact HE|]. intro X. lia. }
+        { split; [lia|]. split; [left; exact HE|]. split; [intro X; lia|exact RGH]. }
         assert (C1 : consec [ln] hb (he + 1)) by (cbn; exists he; split; [split; assumption|reflexivity]).
         assert (N1 : [ln] <> []) by discriminate.
         assert (UE : undated_between (he + 1) (he + 1)) by (intros x X1 X2; lia).
         destruct (store_gate st1 fo hb he dt [ln] (he + 1) _ _ _ GI1 (AB1 _ F1 U1) GO LE UB SP DD
-                    C1 N1 (N.le_refl _) UE (or_introl HE) AT1 SF) as (GP & LT & s & ->).
+                    C1 N1 (N.le_refl _) UE (or_introl HE) AT1 (or_introl HE) SF) as (GP & LT & s & ->).
         split; assumption.
       + destruct (ib_loop_b dated (S (length f)) bs f st1 (he + 1) [ln]) as [st2 rb] eqn:LBQ.
         assert (AT1 : at_line st1 (he + 1)).
-        { pose proof SP as (_ & EL & _). split; [lia|]. split.
+        { pose proof SP as (_ & EL & _). split; [lia|]. split; [|split].
           - destruct (N.eq_dec (he + 1) (lenN f)); [left; assumption|right]. apply (span_next_beg f hb he SP). lia.
-          - intros _. right. exists hb. split; [exact ST|]. replace (he + 1 - 1) with he by lia. split; [exact SP|lia]. }
+          - intros _. right. exists hb. split; [exact ST|]. replace (he + 1 - 1) with he by lia. split; [exact SP|lia].
+          - exact RGH. }
         assert (C1 : consec [ln] hb (he + 1)) by (cbn; exists he; split; [split; assumption|reflexivity]).
         assert (N1 : [ln] <> []) by discriminate.
-        destruct (ib_loop_b_ok _ _ _ _ hb _ _ GI1 AT1 C1 N1 LBQ) as (GI2 & F2 & U2 & MONO2 & RB).
+        destruct (ib_loop_b_ok _ _ _ _ hb _ _ GI1 AT1 C1 N1 LBQ) as (GI2 & F2 & U2 & MONO2 & MR2 & RB).
         destruct rb as [[[fo_b lns]|]| | |]; try contradiction.
-        * destruct RB as (CC & NE & LE2 & UB2 & STOP & AT2).
+        * destruct RB as (CC & NE & LE2 & UB2 & STOP & AT2 & NX2).
           destruct (sr_store_found bs st2 fo fo_b dt lns) as [[st3 r3] p3] eqn:SF.
           intro H; injection H as <- <- <- <-.
           destruct (store_gate st2 fo hb he dt lns fo_b _ _ _ GI2
-                      (AB1 _ (frame_trans _ _ _ F1 F2) (eq_trans U2 U1)) GO LE UB SP DD CC NE LE2 UB2 STOP AT2 SF)
+                      (AB1 _ (frame_trans _ _ _ F1 F2) (eq_trans U2 U1)) GO LE UB SP DD CC NE LE2 UB2 STOP AT2 NX2 SF)
             as (GP & LT & s & ->).
           split; assumption.
         * intro H; injection H as <- <- <- <-. exact GI2.
@@ -882,39 +1118,105 @@ Section GateSys.
     destruct r as [[n s]| | |]; [apply IH; destruct R; assumption|exact R|exact R|exact R].
   Qed.
 
-  Lemma c_gate_lines_ok k : forall l fo, lr_inv l -> lru_stored l ->
-    fo <= lenN f -> (fo = lenN f \/ line_beg f fo = fo) -> (fo < lenN f -> pred_stored l fo) ->
-    lr_inv (c_gate_lines k bs f l fo) /\ lru_stored (c_gate_lines k bs f l fo).
+  Lemma set_ext_id l : lr_set_ext (l_ext l) l = l.
+  Proof. destruct l; reflexivity. Qed.
+
+  Lemma c_gate_lines_ok k : forall l fo, LI l -> lru_stored l ->
+    fo <= lenN f -> (fo = lenN f \/ line_beg f fo = fo) -> (fo < lenN f -> pred_stored l fo) -> RG l fo ->
+    LI (c_gate_lines k bs f l fo) /\ lru_stored (c_gate_lines k bs f l fo) /\
+    (forall x, stored_at l x -> stored_at (c_gate_lines k bs f l fo) x) /\
+    (forall y, RG l y -> RG (c_gate_lines k bs f l fo) y).
   Proof.
-    induction k as [|k IH]; intros l fo I S A1 A2 A3; cbn [c_gate_lines]; [auto|].
+    induction k as [|k IH]; intros l fo I S A1 A2 A3 A4; cbn [c_gate_lines]; [auto|].
     destruct (c_find_line_in_block bs f l fo) as [[l' [r part]] p] eqn:C.
+    assert (C' : c_find_line_in_block bs f (lr_set_ext (l_ext l) l) fo = (l', (r, part), p)) by (rewrite set_ext_id; exact C).
     destruct (N.eq_dec fo (lenN f)) as [EOF|NEOF].
     - (* at the end of the file nothing changes but the counters and the order of the LRU list *)
-      rewrite EOF in C. destruct (lb_eof bs f Hbs _ _ _ _ _ I S C) as (-> & _ & I' & S' & _). auto.
+      rewrite EOF in C'. destruct (H_eof _ _ _ _ _ _ I S C') as (-> & _ & I' & S' & M & MR). auto.
     - assert (L : fo < lenN f) by lia.
       assert (LB : line_beg f fo = fo) by (destruct A2; [contradiction|assumption]).
-      destruct (lb_seq bs f Hbs _ _ _ _ _ _ I S L LB (A3 L) C) as (I' & S' & MONO & [(s & -> & OK & ST)|(-> & _)]).
-      + destruct OK as [SP CH]. pose proof SP as (_ & EL & _). apply IH; auto.
-        * lia.
-        * destruct (N.eq_dec (line_end f fo + 1) (lenN f)); [left; assumption|right]. apply (span_next_beg f fo _ SP). lia.
-        * intros _. eapply stored_pred; eauto.
+      destruct (H_seq _ _ _ _ _ _ _ I S L LB (A3 L) A4 C') as (I' & S' & MONO & MR & [(s & -> & OK & ST & RGN)|(-> & _)]).
+      + destruct OK as [SP CH]. pose proof SP as (_ & EL & _).
+        assert (B2 : line_end f fo + 1 = lenN f \/ line_beg f (line_end f fo + 1) = line_end f fo + 1).
+        { destruct (N.eq_dec (line_end f fo + 1) (lenN f)); [left; assumption|right]. apply (span_next_beg f fo _ SP). lia. }
+        assert (B3 : line_end f fo + 1 < lenN f -> pred_stored l' (line_end f fo + 1)).
+        { intros _. eapply stored_pred; [exact Hbs|exact (LI_inv0 _ I')|exact ST|exact SP]. }
+        destruct (IH l' (line_end f fo + 1) I' S' ltac:(lia) B2 B3 RGN) as (A & B & Cc & D).
+        split; [exact A|]. split; [exact B|]. split; [intros x X; apply Cc; apply MONO; exact X|intros y Y; apply D; apply MR; exact Y].
       + auto.
   Qed.
 
-  Theorem c_gate_ok k1 k2 : ginv (c_gate dated k1 k2 bs f sr_init).
+  (* the whole block-zero pattern, from any state in which nothing is cached beyond offset 0 *)
+  Theorem c_gate_ok k1 k2 st0 : gate_pre st0 0 -> ginv (c_gate dated k1 k2 bs f st0).
   Proof.
-    unfold c_gate. apply c_gate_sys_ok.
-    assert (Z0 : 0 <= lenN f) by lia.
-    destruct (c_gate_lines_ok k1 lr_init 0 (lr_inv_init bs f) (lru_stored_init bs) Z0
-                (or_intror (first_line_beg bs f Hbs 0 eq_refl)) (fun _ => or_introl eq_refl)) as [I1 S1].
-    assert (GI0 : ginv sr_init).
-    { split; [split; [apply sr_inv_init|exact Logic.I]|]. split; [intros a b v []|apply lru_stored_init]. }
-    split; [apply ginv_lr; assumption|]. split; [|split].
+    intros (GI & AB & GO & (A1 & A2 & A3 & A4)). unfold c_gate. apply c_gate_sys_ok.
+    pose proof GI as ((I & _) & _ & S & _).
+    destruct (c_gate_lines_ok k1 (s_lr st0) 0 (si_lr _ _ _ _ I) S A1 A2 (fun _ => or_introl eq_refl) A4) as (I1 & S1 & M1 & MR1).
+    split; [apply ginv_lr; assumption|]. split; [exact AB|]. split; [exact GO|].
+    split; [exact A1|]. split; [exact A2|]. split; [intros _; left; reflexivity|apply MR1; exact A4].
+  Qed.
+
+  (* a reader on which nothing was called yet *)
+  Lemma gate_pre_init stream : LI (lr_init_k stream) -> RG (lr_init_k stream) 0 -> gate_pre (sr_init_k stream) 0.
+  Proof.
+    intros I0 G0.
+    split; [|split; [|split]].
+    - split; [split; [split; cbn; intros; try discriminate; try contradiction; exact I0|exact Logic.I]|].
+      split; [intros a b v []|]. split; [apply lru_stored_init|]. split; intros; discriminate.
     - split; [intros a b v []|]. split; intros k x X; discriminate.
     - intros b g G LT. lia.
-    - split; [lia|]. split; [right; apply (first_line_beg bs f Hbs); reflexivity|]. intros _. left. reflexivity.
+    - split; [lia|]. split; [right; apply (first_line_beg bs f Hbs); reflexivity|]. split; [intros _; left; reflexivity|exact G0].
   Qed.
 End GateSys.
+
+(* ---------------------------------------------------------------- a file whose blocks can all be read *)
+
+Section GatePlain.
+  Variable dated : list N -> option Z.
+  Variable bs : N.
+  Variable f : file.
+  Hypothesis Hbs : 0 < bs.
+  Hypothesis Hpart : forall b z, b < lenN f -> line_beg f b = b ->
+    dated (slice f b (b + 1)) = Some z -> dated (slice f b (line_end f b + 1)) = Some z.
+
+  Local Notation lr_inv := (lr_inv bs f).
+  Definition rg_any (l : lr_state) (fo : N) : Prop := True.
+
+  Lemma plain_seq : forall l ex fo l' r part p, lr_inv l -> lru_stored l -> fo < lenN f -> line_beg f fo = fo ->
+    pred_stored l fo -> rg_any l fo -> c_find_line_in_block bs f (lr_set_ext ex l) fo = (l', (r, part), p) ->
+    lr_inv l' /\ lru_stored l' /\ (forall x, stored_at l x -> stored_at l' x) /\ (forall y, rg_any l y -> rg_any l' y) /\
+    ((exists s, r = Found (line_end f fo + 1, s) /\ sline_ok bs f s fo (line_end f fo) /\ stored_at l' fo /\
+                rg_any l' (line_end f fo + 1)) \/
+     (r = Done /\ fo + 1 < lenN f /\
+      match part with
+      | None => True
+      | Some s => bytes_of bs f (sl_parts s) = slice f fo (fo + 1) /\ line_fo_begin bs (sl_parts s) = Some fo
+      end)).
+  Proof.
+    intros l ex fo l' r part p I S L LB PS _ C.
+    assert (S0 : lru_stored (lr_set_ext ex l)) by (apply (lru_stored_same l); auto).
+    destruct (lb_seq bs f Hbs _ _ _ _ _ _ (lr_set_ext_inv bs f ex _ I) S0 L LB PS C) as (I' & S' & MONO & R).
+    split; [exact I'|]. split; [exact S'|]. split; [exact MONO|]. split; [intros; exact Logic.I|].
+    destruct R as [(s & A & B & Cc)|R]; [left; exists s; split; [exact A|]; split; [exact B|]; split; [exact Cc|exact Logic.I]|right; exact R].
+  Qed.
+
+  Lemma plain_eof : forall l ex l' r part p, lr_inv l -> lru_stored l ->
+    c_find_line_in_block bs f (lr_set_ext ex l) (lenN f) = (l', (r, part), p) ->
+    r = Done /\ part = None /\ lr_inv l' /\ lru_stored l' /\ (forall x, stored_at l x -> stored_at l' x) /\
+    (forall y, rg_any l y -> rg_any l' y).
+  Proof.
+    intros l ex l' r part p I S C.
+    assert (S0 : lru_stored (lr_set_ext ex l)) by (apply (lru_stored_same l); auto).
+    destruct (lb_eof bs f Hbs _ _ _ _ _ (lr_set_ext_inv bs f ex _ I) S0 C) as (A & B & I' & S' & M).
+    split; [exact A|]. split; [exact B|]. split; [exact I'|]. split; [exact S'|]. split; [exact M|intros; exact Logic.I].
+  Qed.
+
+  Theorem c_gate_ok_plain k1 k2 : @ginv dated bs f lr_inv (c_gate dated k1 k2 bs f sr_init).
+  Proof.
+    apply (c_gate_ok dated bs f Hbs Hpart rg_any (fun l I => proj1 I) plain_seq plain_eof k1 k2 sr_init).
+    apply (gate_pre_init dated bs f Hbs rg_any false); [apply lr_inv_init|exact Logic.I].
+  Qed.
+End GatePlain.
 
 (* after block-zero analysis (any number of in-block line finds and in-block sysline finds from 0, on a
    fresh reader) every later operation sequence without drops is answered as the spec says, and the
@@ -929,7 +1231,7 @@ Theorem gate_then_refines dated bs f k1 k2 ops plan : 0 < bs ->
   Some (syslines dated f).
 Proof.
   intros H HP ND st0.
-  destruct (c_gate_ok dated bs f H HP k1 k2) as (RI & NDG & _).
+  destruct (c_gate_ok_plain dated bs f H HP k1 k2) as (RI & NDG & _).
   assert (CI : cinv dated bs f st0) by (split; [apply lr_inv_init|exact RI]).
   destruct (c_run dated bs f st0 ops) as [st xs] eqn:R.
   destruct (c_run_nodrop dated bs f H ops _ _ _ CI NDG ND R) as ([_ RI'] & NDG' & M & _).
